@@ -146,13 +146,19 @@ def c16(c):
 @plan("C05")
 def c05(c):
     units, runs = [], []
-    for n in ["ilp32", "ilp32f", "wide"]:
+    for n in ["ilp32", "ilp32f", "wide", "narrow"]:
         for g in range(4):
             nm = "c05_%s_g%d" % (n, g)
             units.append(dict(name=nm, srcs=[D + "c05_ptrarith.cpp"], build="asan0", defs=EXC + ["CFG=vsbx_" + n, "GROUP=%d" % g]))
             runs.append(dict(unit=nm, label=nm))
             if n == "ilp32" and (c.thorough or g in (0, 3)):
                 runs.append(dict(unit=nm, label=nm + "[4GiB]", args=["big"]))
+    # GNU dialect (-std=gnu++17, the compilers' default): __int128 and unsigned __int128 are integer types there and pass the
+    # library's gate for index operands
+    for g in ((0, 1) if not c.thorough else range(4)):
+        nm = "c05_ilp32_gnu_g%d" % g
+        units.append(dict(name=nm, srcs=[D + "c05_ptrarith.cpp"], build="asan0", defs=EXC + ["CFG=vsbx_ilp32", "GROUP=%d" % g], flags=["-std=gnu++17"]))
+        runs.append(dict(unit=nm, label=nm))
     return dict(units=units, runs=runs, evidence=dict(
         level="exploration",
         rule="case = (operation in {+,-,+=,-=,++,--,[],&[]}, pointee type, base address, index type and wrapper (plain/tainted/tainted_volatile), "
@@ -187,7 +193,8 @@ def c17_header(path, holders):
             dims = "[%d][%d]" % (h[1], h[2])
             each.append("F2(%s, %s, %d, %d, G%s)" % (name, t, h[1], h[2], name))
         o.append("struct %s { long pre; %s arr%s; long post; };" % (name, t, dims))
-        o.append("struct G%s { int32_t pre; %s arr%s; int32_t post; };" % (name, g, dims))
+        # the guest image follows the ABI configuration of the binary (CFG; world.hpp / ref.hpp are included before this header)
+        o.append("struct G%s { ref::guest_t<CFG, long> pre; ref::guest_t<CFG, %s> arr%s; ref::guest_t<CFG, long> post; };" % (name, t, dims))
         ft = "%s%s" % (t, dims) if t != "int*" else "int*%s" % dims
         o.append("#define sandbox_fields_reflection_c17_class_%s(f, g, ...) f(long, pre, FIELD_NORMAL, ##__VA_ARGS__) g() "
                  "f(%s, arr, FIELD_NORMAL, ##__VA_ARGS__) g() f(long, post, FIELD_NORMAL, ##__VA_ARGS__) g()" % (name, ft))
@@ -220,6 +227,14 @@ def c17(c):
         units.append(dict(name=nm, srcs=[D + "c17_arrayidx.cpp"], build="asan0", defs=EXC + ["CFG=vsbx_ilp32"],
                           flags=["-I" + os.path.join(c.bdir, "inc%d" % k)]))
         runs.append(dict(unit=nm, label=nm))
+        # the same array families under ABIs whose elements are wider / narrower than the application's (the layout of the
+        # sandbox-resident array then differs from the application copy's): quick one group each, thorough all
+        for cfg in ("wide", "narrow"):
+            if c.thorough or k == (1 if cfg == "wide" else 2):
+                nm2 = "c17_%s_g%d" % (cfg, k)
+                units.append(dict(name=nm2, srcs=[D + "c17_arrayidx.cpp"], build="asan0", defs=EXC + ["CFG=vsbx_" + cfg],
+                                  flags=["-I" + os.path.join(c.bdir, "inc%d" % k)]))
+                runs.append(dict(unit=nm2, label=nm2))
     # an index that still lives in sandbox memory and is rewritten between RLBox's accesses (access-trap interleaver)
     for b in ("plain0", "plain1"):
         nm = "c17_idxtrap_" + b
@@ -417,7 +432,12 @@ def c10(c):
         runs.append(dict(unit="c10_elemabi_" + cfg, label="c10_elemabi[%s]" % cfg))
     # a handful of compile-filtered programs on the WIDE ABI (pointer representation of host width): requests the statement
     # rules out at the type level must not exist as programs that run to completion
-    pre = '#include "miniforms.hpp"\nusing namespace rlbox;\nint main(int c, char** v) { return mf::run_all(c, v); }\n'
+    pre = ('#include "miniforms.hpp"\nusing namespace rlbox;\n'
+           'struct C10Pair { short a; short b; };\nunion C10Un { int i; float f; char c[8]; };\n'
+           '#define sandbox_fields_reflection_c10f_class_C10Pair(f, g, ...) f(short, a, FIELD_NORMAL, ##__VA_ARGS__) g() f(short, b, FIELD_NORMAL, ##__VA_ARGS__) g()\n'
+           '#define sandbox_fields_reflection_c10f_allClasses(f, ...) f(C10Pair, c10f, ##__VA_ARGS__)\n'
+           'rlbox_load_structs_from_library(c10f);\n'
+           'int main(int c, char** v) { return mf::run_all(c, v); }\n')
     FAW = 'auto fa = e.sb.INTERNAL_get_sandbox_function_name<int(int)>("guest_fn");'
     c10forms = [
         (1, 'FORM(1, "f", "copy_and_verify_range on the address of a sandbox function") { ' + FAW + ' fa.copy_and_verify_range([](std::unique_ptr<int[]>) { return 0; }, 4); }'),
@@ -437,6 +457,13 @@ def c10(c):
         (10, 'FORM(10, "g", "copy_memory_or_deny_access with a tainted wchar_t buffer (control)") { auto p = e.sb.malloc_in_sandbox<wchar_t>(4); for (int i = 0; i < 4; i++) p[i] = static_cast<wchar_t>(L\'k\' + i); bool c = false; wchar_t* out = copy_memory_or_deny_access(e.sb, p, 4, false, c); if (!out || out[3] != L\'n\') throw std::runtime_error("wchar_t content differs"); if (c) free(out); }'),
         (11, 'FORM(11, "g", "malloc_in_sandbox of a struct that is not described to RLBox (control)") { struct Ctx { int a; char b; double d; }; auto p = e.sb.malloc_in_sandbox<Ctx>(2); auto q = e.sb.malloc_in_sandbox<Ctx>(); if (!p || !q) throw std::runtime_error("null"); uintptr_t a = reinterpret_cast<uintptr_t>(p.UNSAFE_unverified()), b = reinterpret_cast<uintptr_t>(q.UNSAFE_unverified()); if (b - a < 2 * sizeof(Ctx) && a - b < sizeof(Ctx)) throw std::runtime_error("allocations overlap"); e.sb.free_in_sandbox(p); e.sb.free_in_sandbox(q); }'),
     ]
+    # more programs of the pinned tree (round 14: they had stopped compiling): element types RLBox has no representation for are
+    # sized as the application sees them and handed around; arrays of described structs are sized element by element
+    c10forms += [
+        (12, 'FORM(12, "g", "union pointee: malloc_in_sandbox, unverified_safe_pointer_because, copy_and_verify (control)") { vsbx_ev.last_malloc_size = 0; auto p = e.sb.malloc_in_sandbox<C10Un>(2); if (!p) throw std::runtime_error("null"); if (vsbx_ev.last_malloc_size != 2 * sizeof(C10Un)) throw std::runtime_error("union not sized as the application sees it"); auto q = sandbox_reinterpret_cast<char*>(p); q[0] = \'x\'; auto raw = p.unverified_safe_pointer_because(2, "control"); char got = p.copy_and_verify([](std::unique_ptr<C10Un> u) { return u ? u->c[0] : \'?\'; }); if (!raw || got != \'x\') throw std::runtime_error("union content differs"); e.sb.free_in_sandbox(p); }'),
+        (13, 'FORM(13, "g", "array of a described struct as element type of malloc_in_sandbox (control)") { vsbx_ev.last_malloc_size = 0; auto p = e.sb.malloc_in_sandbox<C10Pair[3]>(2); if (!p) throw std::runtime_error("null"); if (vsbx_ev.last_malloc_size != 2 * 3 * sizeof(tainted_volatile<C10Pair, mf::S>)) throw std::runtime_error("array of structs not sized by its sandbox image"); auto raw = p.unverified_safe_pointer_because(2, "control"); if (!raw) throw std::runtime_error("null"); e.sb.free_in_sandbox(p); }'),
+        (14, 'FORM(14, "g", "nullptr_t and pointer-to-member element types are handed around (control)") { struct WM { int m; }; auto p = e.sb.malloc_in_sandbox<std::nullptr_t>(2); auto q = e.sb.malloc_in_sandbox<int WM::*>(2); if (!p || !q) throw std::runtime_error("null"); auto a = p.copy_and_verify_address([](uintptr_t x) { return x; }); if (!a) throw std::runtime_error("null"); e.sb.free_in_sandbox(p); e.sb.free_in_sandbox(q); }'),
+    ]
     c10forms = c10forms[3:] + c10forms[:3]  # the forms that may end in a fatal sanitizer report run last
     units.append(dict(name="c10_forms_wide", kind="forms", build="asan0", defs=EXC + ['MF_PROP="C10"', "MF_CFG=vsbx_wide"], preamble=pre, forms=c10forms))
     runs.append(dict(unit="c10_forms_wide", label="c10_forms[wide]"))
@@ -449,6 +476,9 @@ def c10(c):
         units.append(dict(name="c10_clang", srcs=[D + "c10_bulk.cpp"], build="clang-asan",
                           defs=EXC + ["CFG=vsbx_ilp32", "RLBOX_USE_STATIC_CALLS()=rlbox_noop_sandbox_lookup_symbol"]))
         runs += [dict(unit="c10_clang", label="c10_clang[p%d]" % p, args=[p], count_distinct=False) for p in range(6)]
+    # size operands wider than size_t (GNU dialect: __int128)
+    units.append(dict(name="c10_wideint", srcs=[D + "c10_wideint.cpp"], build="asan", defs=EXC, flags=["-std=gnu++17"]))
+    runs.append(dict(unit="c10_wideint", label="c10_wideint[gnu++17]"))
     return dict(units=units, runs=runs, evidence=dict(
         level="exploration",
         rule="case = (operation, start, extent, operand form). Operations: memset (size as size_t / tainted<size_t> / int / tainted<int> incl. negative), "
@@ -552,9 +582,9 @@ def c12(c):
     runs = []
     variants = [("ilp32", []), ("wide", ["RLBOX_EMBEDDER_PROVIDES_TLS_STATIC_VARIABLES"])]
     if c.thorough:
-        variants += [("ilp32", ["RLBOX_EMBEDDER_PROVIDES_TLS_STATIC_VARIABLES"]), ("wide", [])]
+        variants += [("ilp32", ["RLBOX_EMBEDDER_PROVIDES_TLS_STATIC_VARIABLES"]), ("wide", []), ("ilp32", ["RLBOX_ENABLE_DEBUG_ASSERTIONS"]), ("narrow", [])]
     for cfg, tls in variants:
-        nm = "c12_%s_%s" % (cfg, "etls" if tls else "ltls")
+        nm = "c12_%s_%s" % (cfg, ("dbgassert" if "RLBOX_ENABLE_DEBUG_ASSERTIONS" in tls else "etls") if tls else "ltls")
         units.append(dict(name=nm, srcs=[D + "c12_callback_calls.cpp"], build="asan", defs=EXC + ["CFG=vsbx_" + cfg] + tls, libs=["-ldl"], needs=["libguest1.so", "libguest2.so"]))
         for b, bn in enumerate(["model", "noop", "dylib"]):
             runs.append(dict(unit=nm, label="%s[%s]" % (nm, bn), args=[b], env=guest_env(c)))
@@ -682,14 +712,22 @@ def c11(c):
     units, runs = guest_libs(), []
     for g in range(groups):
         inc = ["-I" + os.path.join(c.bdir, "gen%d" % g)]
-        for cfg in (["ilp32", "wide"] if (c.thorough or g % 2 == 0) else ["ilp32"]):
+        for cfg in ((["ilp32", "wide"] + (["narrow"] if g % 3 == 0 else [])) if (c.thorough or g % 2 == 0) else ["ilp32"]):
             nm = "c11_%s_g%d" % (cfg, g)
-            units.append(dict(name=nm, srcs=[D + "c11_invoke.cpp"], build="asan0", defs=EXC + ["CFG=vsbx_" + cfg], flags=inc, libs=["-ldl"], needs=["libguest1.so", "libguest2.so"]))
+            # thorough: every third group in the debug configuration (RLBOX_ENABLE_DEBUG_ASSERTIONS), same verdicts required
+            dbg = ["RLBOX_ENABLE_DEBUG_ASSERTIONS"] if (c.thorough and g % 3 == 2) else []
+            units.append(dict(name=nm, srcs=[D + "c11_invoke.cpp"], build="asan0", defs=EXC + ["CFG=vsbx_" + cfg] + dbg, flags=inc, libs=["-ldl"], needs=["libguest1.so", "libguest2.so"]))
             runs.append(dict(unit=nm, label=nm + "[model]", args=[0]))
             if cfg == "ilp32":
                 runs.append(dict(unit=nm, label=nm + "[noop]", args=[1]))
                 if g == 0:
                     runs.append(dict(unit=nm, label=nm + "[dylib]", args=[2], env=guest_env(c)))
+    # the documented spellings of a call (public macros), incl. entry points renamed by an object-like macro of the library's header
+    units.append(dict(name="c11_macros_dyn", srcs=[D + "c11_macros.cpp"], build="asan", defs=EXC, libs=["-ldl"], needs=["libguest1.so"]))
+    runs.append(dict(unit="c11_macros_dyn", label="c11_macros[model]", args=[0]))
+    runs.append(dict(unit="c11_macros_dyn", label="c11_macros[dylib]", args=[1], env=guest_env(c)))
+    units.append(dict(name="c11_macros_static", srcs=[D + "c11_macros.cpp"], build="asan", defs=EXC + ["C11M_STATIC"], libs=["-ldl"]))
+    runs.append(dict(unit="c11_macros_static", label="c11_macros[noop,static calls]"))
     return dict(units=units, runs=runs, pre=[gen], evidence=dict(
         level="exploration",
         rule="signature family generated per run from VERIF_SEED (0..12 parameters over every integer kind, bool, enum, float, double, int*, const char*, "
